@@ -1,6 +1,6 @@
 (* C02 - Shares are conserved.  Statements only; proofs live in CGT.Proofs. *)
-From Coq Require Import QArith Qcanon ZArith List Bool.
-Require Import CGT.Model.Num CGT.Model.Match CGT.Proofs.MatchFacts.
+From Coq Require Import QArith Qcanon ZArith List Bool Sorted.
+Require Import CGT.Model.Num CGT.Model.Match CGT.Proofs.MatchFacts CGT.Proofs.MatchInv CGT.Proofs.Examples.
 Import ListNotations.
 Open Scope Qc_scope.
 
@@ -8,4 +8,39 @@ Open Scope Qc_scope.
 Theorem C02_bnb_legs_sum : forall w offs d fut R rem cl,
   legs_qty (b_legs (bnb w offs d fut R rem cl)) = rem - b_rem (bnb w offs d fut R rem cl).
 Proof. exact bnb_qty. Qed.
+
+(* For every accepted, well-formed, date-sorted security ledger: the reported disposals are
+   exactly the sale days, in order, and the legs of each add up to the quantity sold that day. *)
+Theorem C02_legs_sum : forall w ds s, wf_days ds -> sorted_days ds -> run w ds = inr s ->
+  Forall2 (fun (x : Z * list leg) (d : day) => fst x = dt d /\ legs_qty (snd x) = sq d)
+          (m_disp s) (filter hassell ds).
+Proof. exact run_legs_sum. Qed.
+
+(* The closing holding is all acquisitions minus all disposals, each rescaled by the splits of its own
+   day and of every later day; and it is never negative. *)
+Theorem C02_closing_holding : forall w ds s, wf_days ds -> sorted_days ds -> run w ds = inr s ->
+  m_pq s = holding_sum ds /\ 0 <= m_pq s.
+Proof. exact run_closing_holding. Qed.
+
+(* During the run the shares claimed on a future purchase day by earlier disposals never exceed what
+   that day has left after its own same-day disposal (so same-day + 30-day matches on it never exceed
+   what was acquired); the invariant every reachable state satisfies. *)
+Theorem C02_invariant_step : forall w offs s d rest,
+  wf_day d -> ratios_pos rest -> NoDup (dates rest) -> Inv s (d :: rest) ->
+  forall s', day_step w offs s d rest = inr s' -> Inv s' rest.
+Proof.
+  intros w offs s d rest H1 H2 H3 H4 s' E.
+  destruct (day_step_ok w offs s d rest H1 H2 H3 H4) as [(_ & _ & E')|(_ & s'' & E' & HI & _)].
+  - rewrite E in E'. discriminate.
+  - rewrite E in E'. injection E' as <-. exact HI.
+Qed.
+
+(* non-vacuity: a ledger with a same-day leg, a 30-day leg across a split and pool legs meets the hypotheses *)
+Example C02_witness : wf_days ex1 /\ sorted_days ex1 /\
+  exists s, run 30 ex1 = inr s /\ List.length (m_disp s) = 3%nat /\ qeqb (m_pq s) (qz 115) = true.
+Proof. split; [exact ex1_wf|]. split; [exact ex1_sorted|exact ex1_runs]. Qed.
+
 Print Assumptions C02_bnb_legs_sum.
+Print Assumptions C02_legs_sum.
+Print Assumptions C02_closing_holding.
+Print Assumptions C02_invariant_step.
